@@ -624,7 +624,7 @@ impl Formatter {
         match stmt {
             Statement::Expr(expr) => {
                 self.format_expr(&expr.node);
-                self.writer.newline();
+                self.writer.end_line();
             }
             Statement::Assignment(assign) => {
                 self.format_assignment(assign);
@@ -635,7 +635,7 @@ impl Formatter {
                 self.writer.write(&assign.field);
                 self.writer.write(" = ");
                 self.format_expr(&assign.value.node);
-                self.writer.newline();
+                self.writer.end_line();
             }
             Statement::IndexAssignment(assign) => {
                 self.format_expr(&assign.object.node);
@@ -643,7 +643,7 @@ impl Formatter {
                 self.format_expr(&assign.index.node);
                 self.writer.write("] = ");
                 self.format_expr(&assign.value.node);
-                self.writer.newline();
+                self.writer.end_line();
             }
             Statement::CompoundAssignment(assign) => {
                 self.writer.write(&assign.name);
@@ -658,7 +658,7 @@ impl Formatter {
                 });
                 self.writer.write(" ");
                 self.format_expr(&assign.value.node);
-                self.writer.newline();
+                self.writer.end_line();
             }
             Statement::Return(expr) => {
                 self.writer.write("return");
@@ -666,7 +666,7 @@ impl Formatter {
                     self.writer.write(" ");
                     self.format_expr(&e.node);
                 }
-                self.writer.newline();
+                self.writer.end_line();
             }
             Statement::If(if_stmt) => self.format_if(if_stmt),
             Statement::While(while_stmt) => self.format_while(while_stmt),
@@ -688,7 +688,7 @@ impl Formatter {
                 }
                 self.writer.write(" = ");
                 self.format_expr(&unpack.value.node);
-                self.writer.newline();
+                self.writer.end_line();
             }
             Statement::TupleAssign(assign) => {
                 for (i, target) in assign.targets.iter().enumerate() {
@@ -699,7 +699,7 @@ impl Formatter {
                 }
                 self.writer.write(" = ");
                 self.format_expr(&assign.value.node);
-                self.writer.newline();
+                self.writer.end_line();
             }
             Statement::ChainedAssignment(ca) => {
                 match ca.binding {
@@ -715,7 +715,7 @@ impl Formatter {
                 }
                 self.writer.write(" = ");
                 self.format_expr(&ca.value.node);
-                self.writer.newline();
+                self.writer.end_line();
             }
         }
     }
@@ -733,7 +733,7 @@ impl Formatter {
         }
         self.writer.write(" = ");
         self.format_expr(&assign.value.node);
-        self.writer.newline();
+        self.writer.end_line();
     }
 
     fn format_if(&mut self, if_stmt: &IfStmt) {
